@@ -121,7 +121,7 @@ where
     (init, h, overlap)
 }
 
-fn random_case<S: SpecGen>(case: &mut Case, max_ops: usize)
+pub fn random_case<S: SpecGen>(case: &mut Case, max_ops: usize)
 where
     S::Op: Clone + Debug + PartialEq + Hash + Send + Sync,
     S::Ret: Clone + Debug + PartialEq + Hash + Send + Sync,
@@ -198,4 +198,7 @@ pub fn run(ctx: &mut Ctx) {
         let (len, threads) = plans[c.k as usize];
         enumerate_case::<WORegister<char>, LinearizabilityTester<u8, WORegister<char>>>(c, "C08", WORegister(None), threads, len);
     });
+    if !ctx.quick() && !ctx.is_replay() && std::env::var_os("SVMON_LANE").is_none() {
+        crate::checks::c05::miri_smoke_lane(ctx, "c08", "C08");
+    }
 }
